@@ -373,3 +373,44 @@ pub fn rows_with_untabulated_entry(ctx: &mut Ctx, tag: &str) {
         }
     }
 }
+
+/// Needle sets around the size where the per-needle counter changes its data structure (64):
+/// a quantified key list and an identifier that is a sequence of one-needle mappings on one field
+/// (what shake merges into one automaton), against values in which a needle occurs twice with
+/// another needle's hit in between, back to back, and not at all. Members are counted once.
+pub fn big_needle_sets(ctx: &mut Ctx, tag: &str) {
+    for n in [62usize, 63, 64, 65, 70] {
+        let needle = |i: usize| format!("<k{:02}>", i);
+        let pats: Vec<String> = (0..n).map(|i| format!("*{}*", needle(i))).collect();
+        let all_but = |skip: usize, twice: usize| -> String {
+            let mut s = String::new();
+            for i in 0..n {
+                if i != skip { s.push_str(&needle(i)); s.push(' '); }
+                if i == twice || i == twice + 1 { s.push_str(&needle(twice)); s.push(' '); }
+            }
+            s
+        };
+        let texts: Vec<(String, usize)> = vec![
+            (format!("run {} then {} then {} again", needle(0), needle(1), needle(0)), 2),
+            (format!("{}{}{}", needle(0), needle(0), needle(1)), 2),
+            (format!("{} {} {} {} {}", needle(5), needle(n - 1), needle(5), needle(n - 1), needle(5)), 2),
+            (format!("{} {} {}", needle(3), needle(4), needle(n - 1)), 3),
+            (all_but(n + 1, 7), n),
+            (all_but(9, 7), n - 1),
+            (all_but(n - 1, 0), n - 1),
+            ("nothing here".to_string(), 0),
+        ];
+        let docs: Vec<Yaml> = texts.iter().map(|(t, _)| map1("cmd", ys(t))).collect();
+        let masks = vec![0u64, 2, 3, 15, 6];
+        for (cond_key, k) in [("all", n), ("of3", 3usize), ("of2", 2), ("ofn", n)] {
+            let want: Vec<bool> = texts.iter().map(|(_, c)| *c >= k).collect();
+            let key = match cond_key { "all" => "all(cmd)".to_string(), "of3" => "of(cmd, 3)".to_string(), "of2" => "of(cmd, 2)".to_string(), _ => format!("of(cmd, {})", n) };
+            let det = vec![("A".to_string(), map1(&key, Yaml::Sequence(pats.iter().map(|p| ys(p)).collect()))), ("condition".to_string(), ys("A"))];
+            strict(ctx, &case(det, docs.clone(), masks.clone()), Some(&want), &format!("{}: {} over a list of {} needles", tag, key, n));
+            let cond = match cond_key { "all" => "all(A)".to_string(), "of3" => "of(A, 3)".to_string(), "of2" => "of(A, 2)".to_string(), _ => format!("of(A, {})", n) };
+            let seq = Yaml::Sequence(pats.iter().map(|p| map1("cmd", ys(p))).collect());
+            let det = vec![("A".to_string(), seq), ("condition".to_string(), ys(&cond))];
+            strict(ctx, &case(det, docs.clone(), masks.clone()), Some(&want), &format!("{}: {} over a sequence of {} one-needle mappings", tag, cond, n));
+        }
+    }
+}
